@@ -1790,3 +1790,220 @@ Proof.
   - exists (Blk 0 1 true false true 2 2). by vm_compute.
   - vm_compute. split_and!; eauto 10.
 Qed.
+
+(** * "Known" does not mean "validated"
+
+    The instant path runs ValidateBlock on every block of the answer, whatever the store
+    already holds for its id: an accepted request passed [vblocks] in full.  With [instant_base]
+    (the derived state is the true state after the base) this makes every block handed to
+    AddValidatedV2Blocks fully valid independently of [known m] ([instant_pre]). *)
+Theorem instant_validates_known_blocks :
+  ∀ U X P fixcp m base bh hj cp st j bs m' acts,
+    do_request U X P fixcp m base bh hj (CInstant cp st j bs) = (m', RNext, acts) →
+    reqh P ≤ bh ∧ checkpoint_ok U X fixcp base cp st j = true ∧
+    vblocks U (derive U X st cp) j bs = true ∧ acts = [Submit true bs Ok].
+Proof.
+  intros U X P fixcp m base bh hj cp st j bs m' acts. cbn [do_request].
+  destruct (N.leb_spec (reqh P) bh) as [Hle|]; cbn [negb]; [|done].
+  destruct (checkpoint_ok U X fixcp base cp st j); cbn [negb]; [|done].
+  destruct (negb (Nat.eqb _ _)); [done|]. destruct (negb (_ =? _)); [done|].
+  destruct (vblocks U (derive U X st cp) j bs); cbn [negb]; [|done].
+  destruct (add_validated U m bs) as [[m1 out] nt]. destruct out; intros [= <- <-]. done.
+Qed.
+
+(** the rule this excludes: ValidateBlock skipped for blocks whose id already has a state *)
+Section Skip.
+  Context (U : universe) (X : xuniverse) (P : params) (subnets : N → list N).
+
+  Fixpoint vblocks_skip (m : mgr) (cs : sterm) (junk_ok : bool) (bs : list N) : bool :=
+    match bs with
+    | [] => true
+    | b :: rest => (has_state m b || vblock U cs junk_ok b) && vblocks_skip m (after cs b) junk_ok rest
+    end.
+
+  Definition do_request_skip (m : mgr) (base bh : N) (hj : list N) (r : cresp)
+    : mgr * req_result * list action :=
+    match r with
+    | CInstant cp st junk_ok bs =>
+        if negb (reqh P <=? bh) then (m, RFail, [])
+        else if negb (checkpoint_ok U X true base cp st junk_ok) then (m, RFail, [])
+        else if negb (Nat.eqb (length bs) (length hj)) then (m, RFail, [])
+        else if negb (hid (xget X (List.last bs 0)) =? List.last hj 0) then (m, RFail, [])
+        else if negb (vblocks_skip m (derive U X st cp) junk_ok bs) then (m, RBan, [])
+        else let '(m', out, _) := add_validated U m bs in
+             match out with
+             | Ok => (m', RNext, [Submit true bs Ok])
+             | o => (m', RBan, [Submit true bs o])
+             end
+    | other => do_request U X P true m base bh hj other
+    end.
+
+  Fixpoint do_requests_skip (m : mgr) (base bh : N) (hcs : list (list N)) (rs : list cresp)
+    : mgr * req_result * list action :=
+    match hcs with
+    | [] => (m, RNext, [])
+    | hj :: hrest =>
+        match rs with
+        | [] => (m, RFail, [])
+        | r :: rrest =>
+            match do_request_skip m base bh hj r with
+            | (m', RNext, acts) =>
+                let '(m'', res, acts') :=
+                  do_requests_skip m' (List.last hj base) (bh + bpr P) hrest rrest in
+                (m'', res, acts ++ acts')
+            | other => other
+            end
+        end
+    end.
+
+  (** [step] with [do_requests_skip] in the sync round; every other handler unchanged *)
+  Definition step_skip (n : node) (mg : msg) : node * list action :=
+    let m := n_mgr n in
+    match mg with
+    | MSync p a hs rem0 rs =>
+        if negb (unsynced n p) then (n, [])
+        else if negb (bool_decide (a ∈ history m) && has_state m a) then (n, [])
+        else if negb (headers_ok U X a hs) then do_drop n p
+        else match hs with
+             | [] => do_synced n p
+             | _ =>
+                 let '(m', res, acts) := do_requests_skip m a (hgt U a) (chunks P hs) rs in
+                 let n1 := with_mgr n m' in
+                 match res with
+                 | RNext => if rem0 then let '(n2, a2) := do_synced n1 p in
+                                         (n2, acts ++ a2 ++ [Relay (List.last hs a)])
+                            else (n1, acts)
+                 | RFail => (n1, acts)
+                 | RBan => let '(n2, a2) := do_ban subnets n1 p in (n2, acts ++ a2)
+                 end
+             end
+    | other => step U X P true subnets n other
+    end.
+
+  Fixpoint run_skip (n : node) (ms : list msg) : node * list action :=
+    match ms with
+    | [] => (n, [])
+    | mg :: rest => let '(n1, a1) := step_skip n mg in
+                    let '(n2, a2) := run_skip n1 rest in (n2, a1 ++ a2)
+    end.
+End Skip.
+
+(** ** Two peers: pre-seed an invalid block by relay, then serve a chain through it *)
+Module Preseed.
+  (** genesis 0; 1 a valid v2 block, the victim's tip; 2 on 1: header-valid, body-invalid (its
+      commitment is honestly over its parent state, its transactions mint coins); 3, 4, 5 on
+      2: header-valid, body-invalid by ancestry *)
+  Definition U : universe := list_to_map [
+    (0, Blk 0 0 true false true 1 1);
+    (1, Blk 0 1 true false true 2 2);
+    (2, Blk 1 2 true false false 4 3);
+    (3, Blk 2 3 true false false 7 4);
+    (4, Blk 3 4 true false false 11 5);
+    (5, Blk 4 5 true false false 16 6) ].
+  Definition X : xuniverse := list_to_map [
+    (0, XB true true false 0 None);
+    (1, XB true true true 1 (Some (StOf 0)));
+    (2, XB true true true 2 (Some (StOf 1)));
+    (3, XB true true true 3 None);
+    (4, XB true true true 4 None);
+    (5, XB true true true 5 None) ].
+  Definition P : params := Params 10000 100 1.
+  Definition n0 : node := Node (add_blocks U init [1]).1.1 ∅ ∅.
+  Definition subnets : N → list N := λ p, [p].
+  (** peer 7 relays the outline of 2 (stored header-validated, rejected by applyTip); peer 8
+      then serves 2-3-4-5 through the checkpoint path *)
+  Definition msgs : list msg :=
+    [MConnect 7; MSync 7 1 [] true []; MOutline 7 2 Complete; MConnect 8;
+     MSync 8 1 [2; 3; 4; 5] true [CInstant 1 (StOf 0) true [2; 3; 4; 5]]].
+  (** the same, peer 8 serving block 2 only *)
+  Definition msgs1 : list msg :=
+    [MConnect 7; MSync 7 1 [] true []; MOutline 7 2 Complete; MConnect 8;
+     MSync 8 1 [2] true [CInstant 1 (StOf 0) true [2]]].
+
+  Lemma U_wf : WF U.
+  Proof. apply wfb_sound. vm_compute. reflexivity. Qed.
+
+  Lemma X_wf : WFX U X P.
+  Proof.
+    split.
+    - intros t B H. unfold U in H. in_list_map H; vm_compute; congruence.
+    - intros t B H. unfold U in H. in_list_map H; vm_compute; congruence.
+    - intros t t' s s'. unfold xget.
+      destruct (X !! t) as [x|] eqn:E; [|done]. destruct (X !! t') as [x'|] eqn:E'; [|done].
+      unfold X in E, E'. in_list_map E; in_list_map E'; vm_compute; congruence.
+    - intros t B H. unfold U in H. in_list_map H; vm_compute; try congruence; by intros _ [].
+    - intros t B H. unfold U in H. in_list_map H; vm_compute; try congruence; by intros _.
+  Qed.
+
+  Lemma n0_inv : NInv U n0.
+  Proof.
+    split.
+    - apply (mstep_inv U U_wf init (AddBlocks [1]) (MInv_init U U_wf) I).
+    - apply (all_body_add_blocks U init [1]), all_body_init.
+  Qed.
+
+  Lemma msgs_uniform : Forall (uniform U P) msgs ∧ Forall (uniform U P) msgs1.
+  Proof.
+    assert (reqh P ≤ hgt U 1) as H by (by vm_compute).
+    split; repeat (constructor; [first [done|by left]|]); constructor.
+  Qed.
+
+  Lemma run_real :
+    (run U X P true subnets n0 msgs).2 = [Synced 7; Submit false [2] Err; Ban 7; Ban 8] ∧
+    best (n_mgr (run U X P true subnets n0 msgs).1) = [1; 0] ∧
+    known (n_mgr (run U X P true subnets n0 msgs).1) !! 2 = Some (KI (Some SHdr) true false) ∧
+    (run U X P true subnets n0 msgs1).2 = [Synced 7; Submit false [2] Err; Ban 7; Ban 8] ∧
+    best (n_mgr (run U X P true subnets n0 msgs1).1) = [1; 0].
+  Proof. split_and!; vm_compute; reflexivity. Qed.
+
+  Lemma run_skipped :
+    (run_skip U X P subnets n0 msgs1).2 =
+      [Synced 7; Submit false [2] Err; Ban 7; Submit true [2] Ok; Synced 8; Relay 2] ∧
+    best (n_mgr (run_skip U X P subnets n0 msgs1).1) = [2; 1; 0] ∧
+    (* in the model 3, 4, 5 are invalid against the state after 2 whatever the store holds, so
+       the longer answer is still refused after block 2 was skipped *)
+    (run_skip U X P subnets n0 msgs).2 = [Synced 7; Submit false [2] Err; Ban 7; Ban 8].
+  Proof. split_and!; vm_compute; reflexivity. Qed.
+End Preseed.
+
+Theorem preseeded_invalid_block_example :
+  WF Preseed.U ∧ WFX Preseed.U Preseed.X Preseed.P ∧ GRoot Preseed.U ∧
+  NInv Preseed.U Preseed.n0 ∧ Forall (uniform Preseed.U Preseed.P) Preseed.msgs ∧
+  let r := run Preseed.U Preseed.X Preseed.P true Preseed.subnets Preseed.n0 Preseed.msgs in
+  r.2 = [Synced 7; Submit false [2] Err; Ban 7; Ban 8] ∧
+  best (n_mgr r.1) = [1; 0] ∧
+  Ban 7 ∈ r.2 ∧ Ban 8 ∈ r.2 ∧
+  has_state (n_mgr r.1) 2 = true ∧ has_supp (n_mgr r.1) 2 = false ∧
+  (∀ l o, Submit true l o ∉ r.2).
+Proof.
+  split_and!; [apply Preseed.U_wf|apply Preseed.X_wf|by vm_compute|apply Preseed.n0_inv
+              |apply Preseed.msgs_uniform|].
+  destruct Preseed.run_real as (E & Hb & Hk & _). cbv zeta. rewrite E, Hb.
+  unfold has_state, has_supp. rewrite Hk. split_and!; try done.
+  - apply elem_of_cons. right. apply elem_of_cons. right. apply elem_of_cons. by left.
+  - apply elem_of_cons. right. apply elem_of_cons. right. apply elem_of_cons. right.
+    apply elem_of_cons. by left.
+  - intros l o Hx. repeat (apply elem_of_cons in Hx as [Hx|Hx]; [done|]). by apply elem_of_nil in Hx.
+Qed.
+
+(** with ValidateBlock skipped for ids that already have a state ([run_skip]) the pre-seeded
+    block is handed to AddValidatedV2Blocks and adopted; the real rule bans both peers *)
+Theorem skip_known_rule_refuted :
+  ∃ U X P subnets n0 msgs,
+    WF U ∧ WFX U X P ∧ GRoot U ∧ 0 < bpr P ∧ 0 < reqh P ∧ NInv U n0 ∧
+    Forall (uniform U P) msgs ∧
+    best (n_mgr (run U X P true subnets n0 msgs).1) = [1; 0] ∧
+    let r := run_skip U X P subnets n0 msgs in
+    best (n_mgr r.1) = [2; 1; 0] ∧
+    (∃ l, Submit true l Ok ∈ r.2 ∧ ¬ validated_pre U l) ∧
+    (∃ b B, b ∈ best (n_mgr r.1) ∧ U !! b = Some B ∧ body_ok B = false).
+Proof.
+  exists Preseed.U, Preseed.X, Preseed.P, Preseed.subnets, Preseed.n0, Preseed.msgs1.
+  split_and!; [apply Preseed.U_wf|apply Preseed.X_wf|by vm_compute|done|done|apply Preseed.n0_inv
+              |apply Preseed.msgs_uniform|apply Preseed.run_real|].
+  destruct Preseed.run_skipped as (E & Hb & _). cbv zeta. rewrite E, Hb. split_and!; [done| |].
+  - exists [2]. split.
+    + do 3 (apply elem_of_cons; right). apply elem_of_cons. by left.
+    + intros [(B & HB & _ & Hbo) _]. vm_compute in HB. injection HB as <-. done.
+  - exists 2, (Blk 1 2 true false false 4 3). split_and!; [|done|done]. apply elem_of_cons. by left.
+Qed.
